@@ -350,7 +350,7 @@ func (x *Engine) loopHeader(fr *Frame, li *loopInfo, st *State) {
 	if ls != nil && fr.top {
 		env, hash := x.nameEnv(fr, h, nil)
 		for i, c := range ls.Invs {
-			if len(c.Props) > 0 && !hasProp(c.Props, x.curProp) {
+			if !x.tagOK(c.Props) {
 				continue // an invariant tagged {P,...} is stated (checked and assumed) only under those properties
 			}
 			ev := &Eval{x: x, st: st, old: fr.entry, env: env, hash: hash, pkg: fr.fn.Pkg}
@@ -421,7 +421,7 @@ func (x *Engine) loopHeader(fr *Frame, li *loopInfo, st *State) {
 	if ls != nil {
 		env, hash := x.nameEnv(fr, h, nil)
 		for _, c := range ls.Invs {
-			if len(c.Props) > 0 && !hasProp(c.Props, x.curProp) {
+			if !x.tagOK(c.Props) {
 				continue
 			}
 			ev := &Eval{x: x, st: st, old: fr.entry, env: env, hash: hash, pkg: fr.fn.Pkg}
@@ -485,7 +485,7 @@ func (x *Engine) backEdge(fr *Frame, from, h *ssa.BasicBlock, st *State) {
 	env, hash := x.nameEnv(fr, h, ov)
 	pos := posOf(x.prog, from.Instrs[len(from.Instrs)-1].Pos())
 	for i, c := range ls.Invs {
-		if len(c.Props) > 0 && !hasProp(c.Props, x.curProp) {
+		if !x.tagOK(c.Props) {
 			continue
 		}
 		ev := &Eval{x: x, st: st, old: fr.entry, env: env, hash: hash, pkg: fr.fn.Pkg}
@@ -955,3 +955,17 @@ func (x *Engine) runUnrolled(fr *Frame, b, pred *ssa.BasicBlock, st *State, budg
 
 // deferAsCall lets the write-set analysis treat a deferred call in a callee like an ordinary call.
 type deferAsCall struct{ *ssa.Defer }
+
+// tagOK: a clause tagged {P, ...} is stated only under those properties; the pseudo tags `seq` / `conc` select the
+// sequential resp. thread-modular pass of a function that is verified in both modes.
+func (x *Engine) tagOK(props []string) bool {
+	if len(props) == 0 {
+		return true
+	}
+	for _, p := range props {
+		if p == x.curProp || (p == "seq" && !x.conc) || (p == "conc" && x.conc) {
+			return true
+		}
+	}
+	return false
+}
